@@ -87,6 +87,18 @@ def check_token_actions(ctx: Ctx, env, rule: str = "R4.action-normalisation"):
                 name, ns = v.fields.get("name"), v.fields.get("namespace")
                 ok = isinstance(name, Sym) and name.op == "splitpart" and name.args[1] == "." and "toktext" in repr(name.args[0]) and \
                     isinstance(ns, Sym) and ns.op == "tupleof" and isinstance(ns.args[0], AbsList) and repr(ns.args[0].elem) == repr(name)
+                if not ok and isinstance(name, Sym) and name.op == "rpartition" and name.args[1] == "." and name.args[2] == 2 and \
+                        isinstance(name.args[0], Sym) and name.args[0].op == "toktext":
+                    # head, dot, tail = text.rpartition('.'): tail is the last segment; head.split('.') the namespace, () without a dot
+                    text = name.args[0]
+                    has_dot = dict(p.conds).get(f"truth({Sym('rpartition', text, '.', 1, hint='str')!r})")
+                    head_split = Sym("splitpart", Sym("rpartition", text, ".", 0, hint="str"), ".", hint="str")
+                    if has_dot is True:
+                        ok = isinstance(ns, Sym) and ns.op == "tupleof" and isinstance(ns.args[0], AbsList) and repr(ns.args[0].elem) == repr(head_split) \
+                            and ns.args[0].order == ["?"]
+                    elif has_dot is False:
+                        from ..values import Const as _C, PyTuple as _PT
+                        ok = (isinstance(ns, _C) and ns.v == ()) or (isinstance(ns, _PT) and not ns.items)
                 ctx.check(ok, rule, key, f"identifier action builds Identifier(name={name!r}, namespace={ns!r}); required: text split on '.', "
                           "last segment is the name, the segments before it the namespace", gm.loc(r.func), "geo.length(x) eq 1")
                 continue
